@@ -1,8 +1,8 @@
 package main
 
 import (
-	"go/constant"
 	"fmt"
+	"go/constant"
 	"go/token"
 	"go/types"
 	"path/filepath"
@@ -526,6 +526,12 @@ func checkGuardRow(c *Check, rule, key, pos string, comp []*ssa.Function, in map
 						break
 					}
 				}
+				if !ok2 && !row.Release {
+					// test and insertion moved into a helper
+					if ok3, why3 := helperGuarded(p, gf, call); ok3 {
+						ok2, why = true, why3
+					}
+				}
 			}
 		}
 		sub := fmt.Sprintf("%s|%s→%s", key, gf.Name(), e.To.Name())
@@ -930,6 +936,20 @@ func autoGuard(comp []*ssa.Function, in map[*ssa.Function]bool, g *repoGraph, re
 			}
 		}
 		if verified == "" {
+			all := true
+			w := ""
+			for _, cl := range calls {
+				ok, why2 := helperGuarded(g.p, gf, cl)
+				if !ok {
+					all = false
+				}
+				w = why2
+			}
+			if all {
+				verified = w
+			}
+		}
+		if verified == "" {
 			continue
 		}
 		// every cycle passes through gf: the rest of the component is acyclic
@@ -972,4 +992,127 @@ func acyclicWithout(comp []*ssa.Function, in map[*ssa.Function]bool, g *repoGrap
 		}
 	}
 	return true
+}
+
+// testAndSet describes a helper that looks a key up in a map and inserts it when
+// it is absent, telling the caller which of the two happened: the insertion is
+// on the not-found outcome of a comma-ok look-up of the same map and key, and a
+// bool result is the constant true on one outcome and the constant false on the
+// other.
+type testAndSet struct {
+	fn        *ssa.Function
+	lookup    *ssa.Lookup
+	update    *ssa.MapUpdate
+	boolIndex int  // index of the bool result
+	foundIs   bool // value of the bool result when the key was already present
+}
+
+func asTestAndSet(h *ssa.Function) *testAndSet {
+	if h == nil || len(h.Blocks) == 0 {
+		return nil
+	}
+	bi := -1
+	for i := 0; i < h.Signature.Results().Len(); i++ {
+		if b, ok := h.Signature.Results().At(i).Type().Underlying().(*types.Basic); ok && b.Kind() == types.Bool {
+			bi = i
+		}
+	}
+	if bi < 0 {
+		return nil
+	}
+	var out *testAndSet
+	eachInstr(h, func(_ *ssa.BasicBlock, i ssa.Instruction) {
+		mu, ok := i.(*ssa.MapUpdate)
+		if !ok || out != nil {
+			return
+		}
+		eachInstr(h, func(_ *ssa.BasicBlock, j ssa.Instruction) {
+			lk, ok := j.(*ssa.Lookup)
+			if !ok || !lk.CommaOk || out != nil || lk.Referrers() == nil {
+				return
+			}
+			if exprKey(lk.X, 0) != exprKey(mu.Map, 0) || exprKey(lk.Index, 0) != exprKey(mu.Key, 0) {
+				return
+			}
+			for _, r := range *lk.Referrers() {
+				ex, ok := r.(*ssa.Extract)
+				if !ok || ex.Index != 1 {
+					continue
+				}
+				for _, br := range branchesOn(ex) {
+					// update only on the absent outcome
+					if !blockReaches(br.FalseSucc, mu.Block(), nil) || blockReaches(br.TrueSucc, mu.Block(), nil) {
+						continue
+					}
+					// constant bool results on the two outcomes
+					var foundVal, absentVal *bool
+					for _, b := range h.Blocks {
+						ret, ok := b.Instrs[len(b.Instrs)-1].(*ssa.Return)
+						if !ok {
+							continue
+						}
+						if b == h.Recover {
+							continue // reached only when a deferred call recovers a panic
+						}
+						vals, _ := returnValues(ret)
+						cv, ok := vals[bi].(*ssa.Const)
+						if !ok || cv.Value == nil {
+							return
+						}
+						v := cv.Value.String() == "true"
+						fromFound := br.TrueSucc == b || blockReaches(br.TrueSucc, b, nil)
+						fromAbsent := br.FalseSucc == b || blockReaches(br.FalseSucc, b, nil)
+						if fromFound && !fromAbsent {
+							foundVal = &v
+						}
+						if fromAbsent && !fromFound {
+							absentVal = &v
+						}
+					}
+					if foundVal != nil && absentVal != nil && *foundVal != *absentVal {
+						out = &testAndSet{fn: h, lookup: lk, update: mu, boolIndex: bi, foundIs: *foundVal}
+					}
+				}
+			}
+		})
+	})
+	return out
+}
+
+// helperGuarded: the recursive call in f is control-dependent on the bool
+// result of a test-and-set helper called earlier in f, and runs only on the
+// "was absent, now inserted" outcome.
+func helperGuarded(p *Program, f *ssa.Function, call ssa.Instruction) (bool, string) {
+	found := false
+	why := ""
+	eachInstr(f, func(_ *ssa.BasicBlock, i ssa.Instruction) {
+		hc, ok := i.(*ssa.Call)
+		if !ok || found {
+			return
+		}
+		ts := asTestAndSet(normFn(p, hc.Call.StaticCallee()))
+		if ts == nil || !instrDominates(hc, call) || hc.Referrers() == nil {
+			return
+		}
+		for _, r := range *hc.Referrers() {
+			ex, ok := r.(*ssa.Extract)
+			if !ok || ex.Index != ts.boolIndex {
+				continue
+			}
+			for _, br := range branchesOn(ex) {
+				foundSucc, absentSucc := br.TrueSucc, br.FalseSucc
+				if !ts.foundIs {
+					foundSucc, absentSucc = br.FalseSucc, br.TrueSucc
+				}
+				if blockReaches(absentSucc, call.Block(), nil) && !blockReaches(foundSucc, call.Block(), nil) {
+					found = true
+					why = fmt.Sprintf("the call runs only when the test-and-set helper %s reported the key as newly inserted", fnName(ts.fn))
+				}
+			}
+		}
+	})
+	if !found {
+		return false, "no test-and-set helper result controls the call"
+	}
+	return true, why
 }
